@@ -163,6 +163,62 @@ theorem c11h_attempts_primary (c : Client) (n : Nat) (failed : List Key) (choice
             rfl
           | fail => exact ih { c with primary := k' } (k' :: failed) rest h
 
+/-- Whatever the attempts loop does to `primary`, it only ever points it at a server that is known and not banned. -/
+theorem c11h_primary_step (c : Client) (n : Nat) (failed : List Key) (choices : List (Key × Attempt)) :
+    (attempts c n failed choices).1.primary = c.primary ∨
+    ∃ s, c.servers.get (attempts c n failed choices).1.primary = some s ∧ s.banned = false := by
+  induction n generalizing c failed choices with
+  | zero => left; simp [attempts]
+  | succ n ih =>
+    cases choices with
+    | nil => left; simp [attempts]
+    | cons ka rest =>
+      obtain ⟨k, a⟩ := ka
+      simp only [attempts]
+      split
+      · left; rfl
+      · split
+        · left; rfl
+        · rename_i _ he
+          have hk : ∃ s, c.servers.get k = some s ∧ s.banned = false := by
+            simp only [eligible] at he
+            split at he
+            · simp at he
+            · rename_i s hs
+              exact ⟨s, hs, by simp at he; exact he.1⟩
+          cases a with
+          | ok p => right; simpa using hk
+          | fail =>
+            rcases ih { c with primary := k } (k :: failed) rest with h | h
+            · right; rw [h]; simpa using hk
+            · right; simpa using h
+
+/-- A round that makes an attempt leaves the client pointed at a server that is known and not banned,
+however the round ends: giving up never falls back to a banned server. -/
+theorem c11_primary_after_attempt (c : Client) (n : Nat) (failed : List Key) (k : Key) (a : Attempt)
+    (rest : List (Key × Attempt))
+    (hany : (c.servers.any (fun p => eligible c failed p.1)) = true)
+    (hb : (attempts c (n + 1) failed ((k, a) :: rest)).2 ≠ .badChoice) :
+    ∃ s, c.servers.get (attempts c (n + 1) failed ((k, a) :: rest)).1.primary = some s ∧ s.banned = false := by
+  simp only [attempts] at hb ⊢
+  rw [if_neg (by simp [hany])] at hb ⊢
+  by_cases he : eligible c failed k
+  · rw [if_neg (by simp [he])] at hb ⊢
+    have hk : ∃ s, c.servers.get k = some s ∧ s.banned = false := by
+      simp only [eligible] at he
+      split at he
+      · simp at he
+      · rename_i s hs
+        exact ⟨s, hs, by simp at he; exact he.1⟩
+    cases a with
+    | ok p => simpa using hk
+    | fail =>
+      rcases c11h_primary_step { c with primary := k } n (k :: failed) rest with h | h
+      · simp only at h ⊢; rw [h]; simpa using hk
+      · simpa using h
+  · rw [if_pos (by simp [he])] at hb
+    exact absurd rfl hb
+
 /-- After a round that synced, the server the client reports to is the one that answered: a reply cannot
 point the client at another server (a migration replaces the list, not the choice). -/
 theorem c11_primary_after_sync (c : Client) (choices : List (Key × Attempt)) (p : Parsed) (k : Key)
